@@ -19,6 +19,7 @@ import (
 	"sync"
 	"sync/atomic"
 	"syscall"
+	"time"
 
 	"verif/harness/internal/engine"
 	"verif/harness/internal/gen"
@@ -211,6 +212,12 @@ type Service struct {
 	// After is called once the answer of a call has been computed.
 	After func(c *Call)
 
+	// TCPAddr, when set, makes the in-memory transport hand the calls for this service to a real net/http transport
+	// (connection pool, keep-alive, its replay rules) talking to a loopback listener in front of the same evaluation.
+	TCPAddr string
+	tcpLn   net.Listener
+	tcpSrv  *http.Server
+
 	// Wire styles: variations a spec-abiding service may show without changing the meaning of its answers.
 	EmptyErrors bool // successful answers carry "errors": []
 	OKStatus    int  // status of successful answers (0: 200; 203, 207 ...)
@@ -364,6 +371,58 @@ func setPath(cur any, segs []string, val any) {
 	}
 }
 
+// realTransport is shared by all services reached over TCP: one pool, connections kept alive between calls.
+var realTransport = &http.Transport{MaxIdleConnsPerHost: 4, IdleConnTimeout: 30 * time.Second}
+
+// ResetCalls restarts the per-service call numbering (after a warm-up that is not part of the judged run).
+func (s *Service) ResetCalls() {
+	s.mu.Lock()
+	s.svcCalls = 0
+	s.mu.Unlock()
+}
+
+// StartTCP puts a loopback HTTP listener in front of the service.
+func (s *Service) StartTCP() error {
+	ln, err := net.Listen("tcp", "127.0.0.1:0")
+	if err != nil {
+		return err
+	}
+	s.tcpLn, s.TCPAddr = ln, ln.Addr().String()
+	s.tcpSrv = &http.Server{Handler: http.HandlerFunc(s.serveTCP)}
+	go s.tcpSrv.Serve(ln)
+	return nil
+}
+
+// StopTCP closes the listener and its connections.
+func (s *Service) StopTCP() {
+	if s.tcpSrv != nil {
+		s.tcpSrv.Close()
+	}
+}
+
+func (s *Service) serveTCP(w http.ResponseWriter, r *http.Request) {
+	body, _ := io.ReadAll(r.Body)
+	resp, err := s.ServeBytes(r, r.Header.Get("Content-Type"), body)
+	if err != nil || resp == nil {
+		// a transport fault: the service has read the request and goes away without a word
+		if hj, ok := w.(http.Hijacker); ok {
+			if c, _, herr := hj.Hijack(); herr == nil {
+				if tc, ok := c.(*net.TCPConn); ok && err != nil && strings.Contains(err.Error(), "reset") {
+					tc.SetLinger(0)
+				}
+				c.Close()
+			}
+		}
+		return
+	}
+	b, _ := io.ReadAll(resp.Body)
+	for k, v := range resp.Header {
+		w.Header()[k] = v
+	}
+	w.WriteHeader(resp.StatusCode)
+	w.Write(b)
+}
+
 // --------------------------------------------------------------- transport
 
 // Transport is an in-memory http.RoundTripper dispatching by host.
@@ -450,6 +509,27 @@ func (t *Transport) RoundTrip(req *http.Request) (*http.Response, error) {
 		u.Path += "/"
 		return &http.Response{StatusCode: 307, Status: "307 Temporary Redirect", Proto: "HTTP/1.1", ProtoMajor: 1, ProtoMinor: 1,
 			Header: http.Header{"Location": {u.String()}}, Body: http.NoBody, Request: req}, nil
+	}
+	if s.TCPAddr != "" {
+		out := req.Clone(req.Context())
+		u := *req.URL
+		u.Host = s.TCPAddr
+		out.URL, out.Host = &u, ""
+		out.Body = io.NopCloser(bytes.NewReader(body))
+		out.ContentLength = int64(len(body))
+		if req.GetBody != nil {
+			out.GetBody = func() (io.ReadCloser, error) { return io.NopCloser(bytes.NewReader(body)), nil }
+		} else {
+			out.GetBody = nil
+		}
+		resp, err := realTransport.RoundTrip(out)
+		if err != nil {
+			return nil, err
+		}
+		raw := resp.Body
+		resp = s.tracked(resp)
+		raw.Close()
+		return resp, nil
 	}
 	resp, err := s.ServeBytes(req, req.Header.Get("Content-Type"), body)
 	return s.tracked(resp), err
